@@ -23,6 +23,7 @@ type kase struct {
 	Flip     []bool `json:"flip"`   // insert pair i as (B,A)
 	Filter   int    `json:"filter"` // 0 nil, 1 all, 2 none, 3 by score (even pairs)
 	Twice    bool   `json:"twice"`  // call Piles a second time (after a 'none' call)
+	Before   []int  `json:"before,omitempty"` // filters of earlier Piles calls on the same piler
 	Redo     int    `json:"redo"`   // after all, add pair Redo again (-1: no), flipped if RedoFlip
 	RedoFlip bool   `json:"redoflip"`
 }
@@ -171,6 +172,9 @@ func check(c *enum.Ctx, k kase) {
 	if k.Twice {
 		p.Piles(filter(2))
 	}
+	for _, f := range k.Before {
+		p.Piles(filter(f))
+	}
 	piles := p.Piles(filter(k.Filter))
 	pass := func(fp *pals.Pair) bool { f := filter(k.Filter); return f == nil || f(fp) }
 	got := map[string][]string{}
@@ -283,7 +287,7 @@ func perms(n int) [][]int {
 }
 
 func run(c *enum.Ctx) {
-	c.Rule("every multiset of <=3 feature pairs over the 15 intervals [s,e) 0<=s<e<=5 on one location (thorough: 0..6, 21 intervals) and every multiset of <=2 pairs over two locations, in every insertion order, every orientation of each pair, with the four pair filters, a repeated Piles call and a re-insertion of each pair in either orientation; reference = union-find over 'same location and overlapping or abutting'; distinct = (multiset, order, flips, filter); non-trivial = multisets with at least two features on one location that overlap or abut")
+	c.Rule("every multiset of <=3 feature pairs over the 15 intervals [s,e) 0<=s<e<=5 on one location (thorough: 0..6, 21 intervals) and every multiset of <=2 pairs over two locations, in every insertion order, every orientation of each pair, with the four pair filters, the same after sequences of earlier Piles calls with other filters (partial, partial+nil; thorough also nil+partial, partial+none, all+partial), a repeated Piles call and a re-insertion of each pair in either orientation; reference = union-find over 'same location and overlapping or abutting'; distinct = (multiset, order, flips, filter); non-trivial = multisets with at least two features on one location that overlap or abut")
 	maxE := 5
 	if !c.Quick {
 		maxE = 6
@@ -357,6 +361,27 @@ func run(c *enum.Ctx) {
 					check(c, k)
 					if nt {
 						c.NontrivialH(enum.Hash64(enum.J(k)))
+					}
+				}
+				if full && len(set) > 1 {
+					// earlier Piles calls with other filters must not change what a later call reports
+					befores := [][]int{{3}, {3, 0}, {0, 3}, {3, 2}, {1, 3}}
+					if c.Quick {
+						befores = befores[:2]
+					}
+					for _, before := range befores {
+						for filt := 0; filt < 4; filt++ {
+							if c.Quick && filt == 1 {
+								continue
+							}
+							k := kase{Pairs: ord, Flip: fv, Filter: filt, Before: before, Redo: -1}
+							c.Eval()
+							trans.Add(int64(len(set) + len(before)))
+							check(c, k)
+							if nt {
+								c.NontrivialH(enum.Hash64(enum.J(k)))
+							}
+						}
 					}
 				}
 				if full {
